@@ -401,9 +401,10 @@ StylesheetExecutionContextDefault::pushCurrentTemplate(const ElemTemplate*  theT
 {       
     // Templates that instantiate each other without end must end in an
     // error, not in the exhaustion of memory.  No stylesheet that terminates
-    // in reasonable time nests templates this deeply.
-    if (theTemplate != 0 &&
-        m_currentTemplateStack.size() >= eMaximumTemplateDepth)
+    // in reasonable time nests templates this deeply.  Every push counts:
+    // xsl:for-each pushes a null current template, and a named template
+    // called from inside it pushes that null again.
+    if (m_currentTemplateStack.size() >= eMaximumTemplateDepth)
     {
         const GetCachedString   theGuard(*this);
 
@@ -412,8 +413,10 @@ StylesheetExecutionContextDefault::pushCurrentTemplate(const ElemTemplate*  theT
                 XalanMessageLoader::getMessage(
                     theGuard.get(),
                     XalanMessages::InfiniteRecursion_1Param,
-                    theTemplate->getElementName()),
-                theTemplate->getLocator());
+                    theTemplate != 0 ?
+                        theTemplate->getElementName() :
+                        Constants::ELEMNAME_TEMPLATE_WITH_PREFIX_STRING),
+                theTemplate != 0 ? theTemplate->getLocator() : 0);
     }
 
     m_currentTemplateStack.push_back(theTemplate);
